@@ -138,6 +138,14 @@ CHECKS = {
             'declared map and f32 set. Thorough adds a coverage-guided atheris campaign over the same oracles.',
             'Both readings of "without their two-character prefix" are accepted for multi-token namespaces. Cells with line breaks excluded by the quantifier.',
             'DESIGN.md §3 C16'),
+    'C13': ('Hypothesis row sequences x compositions of the row count (+ every composition of short sequences) vs exact counters; split-independence metamorphic relation; in-process task runs over several batch sizes',
+            'Exploration: generated row sequences are fed batch by batch (generated cut points and unsplit) through compute_coverage / '
+            'compute_cardinalities / compute_value_counts and compared with exact recomputation (per-batch coverage, distinct non-empty '
+            'values, value counts, rare pairs count <= threshold); every composition of sequences of <=9 rows is enumerated; the ranking '
+            'and identify_rare_values tasks run in-process for several minibatch sizes dividing the row count and the name annotations, '
+            'value_repetitions.json and rare_values.tsv are recomputed exactly.',
+            'Cardinalities stay far below the sketch warm-up capacity (C14). Columns whose distinct count reaches --max_unique_hist_constraint are not asserted (bounded counter, C15).',
+            'DESIGN.md §3 C13'),
 }
 
 NOT_YET = 'check not built yet in this commit (work in progress; planned in DESIGN.md §3)'
